@@ -93,7 +93,7 @@ CFG = {"APPLICATIONS": [], "TRANSPORT_TYPE": "TCP", "LOCAL_NODE_HOSTNAME": "loca
 
 
 class Node:
-    def __init__(self, role, n_apps=0):
+    def __init__(self, role, n_apps=0, local=None):
         import bromelia.statemachine as SM
         from bromelia.setup import Diameter, DiameterAssociation
         from bromelia.statemachine import PeerStateMachine
@@ -102,6 +102,9 @@ class Node:
         cfg["MODE"] = "CLIENT" if role == "client" else "SERVER"
         apps = [{"vendor_id": b"\x00\x00\x28\xaf", "app_id": b"\x01\x00\x00\x23"}, {"vendor_id": b"\x00\x00\x28\xaf", "app_id": b"\x01\x00\x00\x16"}]
         cfg["APPLICATIONS"] = apps[:n_apps]
+        if local is not None:
+            cfg["LOCAL_NODE_HOSTNAME"], cfg["LOCAL_NODE_REALM"] = local
+        self.local = (cfg["LOCAL_NODE_HOSTNAME"], cfg["LOCAL_NODE_REALM"])
         self.role = role
         self.diameter = Diameter(config=cfg)
         self.released_total = 0
